@@ -73,6 +73,55 @@ fn protected_definitions(h: &H) -> Vec<H> {
     v
 }
 
+// Does some definition depend on itself through definitions only (mentions under a function
+// binder do not count: that is recursion)? `a = b; b = a` makes the checker unfold for ever.
+fn has_definition_cycle(h: &H) -> bool {
+    fn mentions(h: &H, out: &mut Vec<String>) {
+        match h {
+            H::Var(v) => out.push(v.clone()),
+            H::Lam(..) | H::Pi(..) => {}
+            H::App(a, b) | H::Bin(_, a, b) => {
+                mentions(a, out);
+                mentions(b, out);
+            }
+            H::Let(_, _, d, b) => {
+                mentions(d, out);
+                mentions(b, out);
+            }
+            H::Neg(a) | H::Paren(a) => mentions(a, out),
+            H::If(a, b, c) => {
+                mentions(a, out);
+                mentions(b, out);
+                mentions(c, out);
+            }
+            _ => {}
+        }
+    }
+    let mut deps: Vec<(String, Vec<String>)> = vec![];
+    crate::props::c08::walk(h, &mut |x| {
+        if let H::Let(n, _, d, _) = x {
+            let mut m = vec![];
+            mentions(d, &mut m);
+            deps.push((n.clone(), m));
+        }
+    });
+    for (start, _) in &deps {
+        let mut seen: Vec<&String> = vec![];
+        let mut stack: Vec<&String> = deps.iter().filter(|(n, _)| n == start).flat_map(|(_, m)| m.iter()).collect();
+        while let Some(x) = stack.pop() {
+            if x == start {
+                return true;
+            }
+            if seen.contains(&x) {
+                continue;
+            }
+            seen.push(x);
+            stack.extend(deps.iter().filter(|(n, _)| n == x).flat_map(|(_, m)| m.iter()));
+        }
+    }
+    false
+}
+
 struct Ed<'a> {
     r: &'a mut Rng,
     kind: &'static str,
@@ -295,6 +344,7 @@ pub fn edit(h: &H, r: &mut Rng) -> Option<(H, &'static str)> {
     };
     let (fresh, fresh2) = (fresh_of("ed"), fresh_of("edz"));
     let protected = protected_definitions(h);
+    let cyclic = has_definition_cycle(h);
     // recursively defined type families: gram's conversion check does not terminate once a
     // neutral index of such a family is written in two ways (DESIGN.md 9.3, D17), which is what an
     // interposed binder or definition does
@@ -316,6 +366,9 @@ pub fn edit(h: &H, r: &mut Rng) -> Option<(H, &'static str)> {
             // the clamped recursive functions planted inside types stay as they are (an edit there
             // makes the checker itself diverge, which tells nothing and costs a watchdog period)
             if !protected.is_empty() && protected_definitions(&out) != protected {
+                continue;
+            }
+            if !cyclic && has_definition_cycle(&out) {
                 continue;
             }
             return Some((out, kind));
